@@ -193,6 +193,8 @@ func genConfigFor(round int) val.GenConfig {
 	if round%5 == 2 {
 		cfg.SmallLen = 9
 	}
+	// every seventh round also populates deprecated message fields: the encoders must skip them
+	cfg.SetDeprecated = round%7 == 6
 	return cfg
 }
 
@@ -211,8 +213,12 @@ func (r *pkgRun) run(rounds int) {
 // evalValue runs every enabled property on one generated value of def di.
 func (r *pkgRun) evalValue(di, round int) {
 	env := r.sc.env
-	V := val.RandomRecord(r.valueRng(di, round), env, di, genConfigFor(round))
-	vs := V.String()
+	raw := val.RandomRecord(r.valueRng(di, round), env, di, genConfigFor(round))
+	// V is what the wire can carry: deprecated fields are never written. The driver gets raw
+	// (vs), the model and the expectations use V (ms).
+	V := val.StripDeprecated(env, schema.Ty{K: schema.TyRef, Ref: di}, raw)
+	vs := raw.String()
+	ms := V.String()
 	want := V.CanonString()
 	multi := V.HasMultiMap()
 	bucket := V.SizeBucket()
@@ -232,13 +238,13 @@ func (r *pkgRun) evalValue(di, round int) {
 	var mHex string
 	mSize := -1
 	haveModelEnc := false
-	if me, ok := r.model("C03", di, "enc "+vs); ok {
+	if me, ok := r.model("C03", di, "enc "+ms); ok {
 		if me.Class == "ok" && len(me.Fields) == 2 {
 			mHex = me.Fields[0]
 			mSize, _ = me.Int(1)
 			haveModelEnc = true
 		} else {
-			r.fail("C03", "model", di, "enc "+vs, "ok <hex> <vsize>", "", me.Short(), "model cannot encode a generated value")
+			r.fail("C03", "model", di, "enc "+ms, "ok <hex> <vsize>", "", me.Short(), "model cannot encode a generated value")
 		}
 	}
 
@@ -321,7 +327,7 @@ func (r *pkgRun) evalValue(di, round int) {
 					}
 				}
 				if !multi && fi == 2 && extra == 7 {
-					mop := fmt.Sprintf("marshalto %s %s", val.Hex(orig), vs)
+					mop := fmt.Sprintf("marshalto %s %s", val.Hex(orig), ms)
 					if mt, ok := r.model("C02", di, mop); ok {
 						if mt.Class != "ok" || len(mt.Fields) != 2 || mt.Fields[0] != val.Hex(buf) || mt.Fields[1] != fmt.Sprint(n) {
 							outcome = "fail"
